@@ -3,6 +3,8 @@
 
 package reactive
 
+import "unsafe"
+
 // VerifYield, when set by a verification harness, is called at named points between
 // lock boundaries so that the harness can perturb the schedule there.
 var VerifYield func(site string)
@@ -10,5 +12,16 @@ var VerifYield func(site string)
 func verifYield(site string) {
 	if f := VerifYield; f != nil {
 		f(site)
+	}
+}
+
+// VerifReleased, when set by a verification harness, is called with the address of a node
+// at the moment it is marked released (for a Resource this is the address of the Resource).
+// It runs with the node's lock held and must not call back into the package.
+var VerifReleased func(addr uintptr)
+
+func verifReleased(n *node) {
+	if f := VerifReleased; f != nil {
+		f(uintptr(unsafe.Pointer(n)))
 	}
 }
